@@ -94,8 +94,34 @@ func perturb(c *ctx, y int) {
 	})
 }
 
+// termEdgeYears scans every year 1..9998 (cheap: one table per year) and returns the civil years that hold a
+// term instant within maxSec seconds of midnight: there the day assignment of a term, and everything keyed on
+// it, hangs on seconds. Boundary inputs derived from the code under test itself, not hard-coded.
+func termEdgeYears(maxSec int, jieOnly bool) []int {
+	out := []int{}
+	for y := 1; y <= 9998; y++ {
+		hit := false
+		try(func() {
+			for k, v := range calendar.NewLunarYear(y).GetJieQiJulianDays()[2:26] {
+				if jieOnly && k%2 != 0 {
+					continue
+				}
+				_, ms := projMs(v)
+				s := ms / 1000
+				if s < maxSec || 86400-s <= maxSec {
+					hit = true
+				}
+			}
+		})
+		if hit {
+			out = append(out, y)
+		}
+	}
+	return out
+}
+
 func c03Years(c *ctx) {
-	years := c.yearsFor(c03Boundary, c.argInt("years", 200), 1, 9998)
+	years := c.yearsFor(append(append([]int{}, c03Boundary...), termEdgeYears(c.argInt("edge", 10), false)...), c.argInt("years", 200), 1, 9998)
 	nrand := c.argInt("rand", 20)
 	for _, y := range years {
 		if !c.mine(y) {
